@@ -370,7 +370,11 @@ class Parser:
         t = self.t
         if t.kind == 'num':
             self.i += 1
-            return N('num', value=int(t.val.replace('_', '')), width=None, signed=True, xz=False)
+            v = int(t.val.replace('_', ''))
+            # an unsized decimal number is signed and "at least 32 bits" (1364-2005 3.5.1); a value that does not fit
+            # a signed 32-bit number takes as many bits as it needs (what every tool does) instead of being truncated
+            w = None if v < (1 << 31) else v.bit_length() + 1
+            return N('num', value=v, width=w, signed=True, xz=False)
         if t.kind == 'based':
             self.i += 1
             return self.based(t)
